@@ -196,6 +196,8 @@ func Build(g *Grammar, o BuildOpts) *Built {
 			p = seq(combinator.SepBy(kids[0], kids[1]))
 		case KSepBy1:
 			p = seq(combinator.SepBy1(kids[0], kids[1]))
+		case KSuppress:
+			p = combinator.SuppressError(kids[0])
 		case KLTrim:
 			p = text.LeftTrim(kids[0], text.WsMode(e.Mode))
 		case KRTrim:
